@@ -20,8 +20,8 @@ func init() {
 				Old: "\tresponseCacheFooterStart := preparedInput.Len()\n\n\terr = fetch.Input.Footer.RenderAndCollectUndefinedVariables(l.ctx, nil, preparedInput, &undefinedVariables)\n\tif err != nil {\n\t\treturn errors.WithStack(err)\n\t}\n\n\tif l.responseCacheEnabled() && len(responseCacheItemHashes) > 0 {",
 				New: "\tresponseCacheFooterStart := preparedInput.Len()\n\n\terr = fetch.Input.Footer.RenderAndCollectUndefinedVariables(l.ctx, nil, preparedInput, new([]string))\n\tif err != nil {\n\t\treturn errors.WithStack(err)\n\t}\n\n\tif l.responseCacheEnabled() && len(responseCacheItemHashes) > 0 {"},
 			{Name: "entity fetch input used without applying the collected undefined variables", File: loaderGo, Rule: "C15-R1", Key: "prepareEntityFetch",
-				Old: "\terr = SetInputUndefinedVariables(preparedInput, undefinedVariables)\n\tif err != nil {\n\t\treturn errors.WithStack(err)\n\t}\n\tfetchInput := preparedInput.Bytes()\n\n\tif l.ctx.TracingOptions.Enable && res.fetchSkipped {\n\t\tl.setTracingInput(fetchItem, fetchInput, fetch.Trace)\n\t\tprepared.skipLoad = true\n\t\treturn nil\n\t}\n\n\tallowed, err := l.validatePreFetch(fetchInput, fetch.Info, res)\n\tif err != nil {\n\t\treturn err\n\t}\n\tif !allowed {\n\t\tprepared.skipLoad = true\n\t\treturn nil\n\t}\n\tprepared.source = fetch.DataSource\n\tprepared.input = fetchInput\n\tprepared.trace = fetch.Trace\n\treturn nil\n}\n\ntype batchEntityTools",
-				New: "\tif len(undefinedVariables) > 1 {\n\t\terr = SetInputUndefinedVariables(preparedInput, undefinedVariables)\n\t\tif err != nil {\n\t\t\treturn errors.WithStack(err)\n\t\t}\n\t}\n\tfetchInput := preparedInput.Bytes()\n\n\tif l.ctx.TracingOptions.Enable && res.fetchSkipped {\n\t\tl.setTracingInput(fetchItem, fetchInput, fetch.Trace)\n\t\tprepared.skipLoad = true\n\t\treturn nil\n\t}\n\n\tallowed, err := l.validatePreFetch(fetchInput, fetch.Info, res)\n\tif err != nil {\n\t\treturn err\n\t}\n\tif !allowed {\n\t\tprepared.skipLoad = true\n\t\treturn nil\n\t}\n\tprepared.source = fetch.DataSource\n\tprepared.input = fetchInput\n\tprepared.trace = fetch.Trace\n\treturn nil\n}\n\ntype batchEntityTools"},
+				Old: "\terr = SetInputUndefinedVariables(preparedInput, undefinedVariables)\n\tif err != nil {\n\t\treturn errors.WithStack(err)\n\t}\n\tfetchInput := preparedInput.Bytes()\n\n\tif l.ctx.TracingOptions.Enable && res.fetchSkipped {",
+				New: "\tif len(undefinedVariables) > 1 {\n\t\terr = SetInputUndefinedVariables(preparedInput, undefinedVariables)\n\t\tif err != nil {\n\t\t\treturn errors.WithStack(err)\n\t\t}\n\t}\n\tfetchInput := preparedInput.Bytes()\n\n\tif l.ctx.TracingOptions.Enable && res.fetchSkipped {"},
 			{Name: "undefined context variable no longer recorded", File: "v2/pkg/engine/resolve/inputtemplate.go", Rule: "C15-R2", Key: "renderSegments",
 				Old: "\t\t\t\tif undefined {\n\t\t\t\t\t*undefinedVariables = append(*undefinedVariables, segment.VariableSourcePath[0])\n\t\t\t\t}\n", New: "\t\t\t\t_ = undefined\n"},
 			{Name: "object literals no longer converted to JSON", File: astValueGo, Rule: "C15-R3", Key: "writeJSONValue",
